@@ -1299,7 +1299,9 @@ impl<P: Pid> World for Ep<P> {
             }
             if al.peer_disconnect && (!m.as_client || self.v5()) {
                 v.push(Act::PDisconnect);
-                if al.disconnect_expiry0 && self.v5() && !m.as_client {
+                // (only a client may put a Session Expiry Interval into DISCONNECT [MQTT-3.14.2-2]; a server that
+                // sends one anyway is "the peer may send any bytes": it decides nothing about the client's session)
+                if al.disconnect_expiry0 && self.v5() {
                     v.push(Act::PDisconnectExpiry0);
                     v.push(Act::PDisconnectKeep);
                 }
